@@ -1,6 +1,6 @@
 (* Main.v -- dispatch of one protocol line to the stream runners.
    To add a stream: import its Run file and add its (keyword, runner) pairs. *)
-From RW Require Import Base.Bytes Run.Wire Run.RunCodec Run.RunSeg Run.RunWal Run.RunMig Run.RunFs.
+From RW Require Import Base.Bytes Run.Wire Run.RunCodec Run.RunSeg Run.RunWal Run.RunMig Run.RunFs Run.RunHist.
 Open Scope N_scope.
 
 Definition handlers : list (str * (list str -> str)) :=
@@ -11,7 +11,8 @@ Definition handlers : list (str * (list str -> str)) :=
     ([109; 105; 103], run_mig);    (* "mig" *)
     ([115; 116; 98], run_stb);     (* "stb" *)
     ([102; 115; 116], run_fst);    (* "fst" *)
-    ([102; 115; 111], run_fso)     (* "fso" *)
+    ([102; 115; 111], run_fso);    (* "fso" *)
+    ([104; 105; 115; 116], run_hist) (* "hist" *)
   ].
 
 Fixpoint dispatch (hs : list (str * (list str -> str))) (cmd : str) (args : list str) : str :=
